@@ -130,9 +130,9 @@ func cUint(u uint64) string { return "i:" + strconv.FormatUint(u, 10) }
 func cFloat(f float64) string {
 	return "f:" + strconv.FormatFloat(f, 'g', -1, 64)
 }
-func cBool(b bool) string     { return "b:" + strconv.FormatBool(b) }
-func cStr(s string) string    { return "s:" + strconv.Quote(s) }
-func cBytes(b []byte) string  { return "x:" + hex.EncodeToString(b) }
+func cBool(b bool) string      { return "b:" + strconv.FormatBool(b) }
+func cStr(s string) string     { return "s:" + strconv.Quote(s) }
+func cBytes(b []byte) string   { return "x:" + hex.EncodeToString(b) }
 func cTime(t time.Time) string { return fmt.Sprintf("t:%d.%09d", t.Unix(), t.Nanosecond()) }
 
 func rawInt(raw interface{}) (string, error) {
